@@ -38,7 +38,12 @@ func init() {
 				returnsUndecorated(c, "C09")
 			}},
 			{ID: "C09-R5", Title: "contiguous chunking; bodies go through the chunked writer", Decides: "fidelity after HTTP chunking and encryption for responses of any size", Floor: 4, Run: c09r5},
-			{ID: "C09-R7", Title: "polarity of the handler's decisions (id parsing, found/missing, 207/204, subscribe/unsubscribe, chunk clamp)", Decides: "each id is answered with its own value or status; correct status codes", Floor: 10, Run: func(c *core.Ctx) { c09r7(c); polarityEverywhere(c, "C09"); handlerHappyPath(c) }},
+			{ID: "C09-R7", Title: "polarity of the handler's decisions (id parsing, found/missing, 207/204, subscribe/unsubscribe, chunk clamp)", Decides: "each id is answered with its own value or status; correct status codes", Floor: 10, Run: func(c *core.Ctx) {
+				c09r7(c)
+				polarityEverywhere(c, "C09")
+				handlerHappyPath(c)
+				handlerErrorStatusPolarity(c, "C09")
+			}},
 			{ID: "C09-R6", Title: "handlers encode live state of every accessory the application added; request bodies reach the decoder unbounded", Decides: "what the application sets is what /accessories shows; large written values arrive", Floor: 4, Run: func(c *core.Ctx) {
 				c09r6(c)
 				frameAtATime(c)
